@@ -297,4 +297,13 @@ theorem C05_py_build_mapping (s i j : Nat) :
       (mappingEntry i j s).map (fun x => ((x.1 : Int), (x.2.1 : Int), if x.2.2 then (-1 : Int) else 1)) :=
   GenPy.py_build_mapping_entry s i j
 
+/-- the entry the **C** table builder `build_mapping_strings` writes for one string — the loop body translated from
+    fci_graph.c on every run, over `BitVec 64` — is `mappingEntry` of the Model, hence (`C05_single_exc`,
+    `C05_number_op`) the Spec action of `a†_i a_j` on the string with its sign, for every 64-bit string and all
+    orbitals below 64 -/
+theorem C05_c_build_mapping (s : BitVec 64) (i j : Nat) (hi : i < 64) (hj : j < 64) :
+    (GenC.build_mapping_entry s i j).map (fun x => (x.1.toNat, x.2.1.toNat, x.2.2)) =
+      (mappingEntry i j s.toNat).map (fun x => (x.1, x.2.1, if x.2.2 then (-1 : Int) else 1)) :=
+  GenC.c_build_mapping_entry s i j hi hj
+
 end C05
